@@ -113,6 +113,29 @@ impl Property for C17 {
                 }
             }
         }
+        if family == "context" && rng.chance(1, 30) {
+            // one gap of more than 65536 blanks (everything after it on the same line) or of
+            // as many line feeds: columns and lines beyond what sixteen bits count
+            let gaps: Vec<usize> = (0..case.pieces.len()).filter(|i| case.pieces[*i].kind == Kind::Gap).collect();
+            if !gaps.is_empty() {
+                let g = *rng.pick(&gaps);
+                let n = rng.range(65_530, 66_200);
+                let blanks = rng.chance(2, 3);
+                case.pieces[g].bytes.0 = vec![if blanks { b' ' } else { b'\n' }; n];
+                if blanks {
+                    for p in case.pieces.iter_mut().skip(g + 1) {
+                        if p.kind == Kind::Gap {
+                            for b in p.bytes.0.iter_mut() {
+                                if *b == b'\n' || *b == b'\r' {
+                                    *b = b' ';
+                                }
+                            }
+                        }
+                    }
+                }
+                case.set("wide", 1);
+            }
+        }
         match family {
             "context" => {
                 if rng.chance(1, 5) {
@@ -455,7 +478,16 @@ fn check_files_concat(case: &Case, ctx: &mut Ctx) -> Option<Violation> {
                 if i == 1 {
                     let d = format!("{base}/a-dir");
                     let _ = std::fs::create_dir_all(&d);
-                    paths.push(format!("{d}/only.json"));
+                    if (case.stream().len() + files.len()) % 2 == 0 {
+                        // ... and that file sits in a sub-directory that is a symbolic link
+                        let t = format!("{base}/t-real");
+                        let _ = std::fs::create_dir_all(&t);
+                        let _ = std::os::unix::fs::symlink(&t, format!("{d}/link"));
+                        paths.push(format!("{d}/link/only.json"));
+                        ctx.stats.probe("a file behind a symbolic link to a directory");
+                    } else {
+                        paths.push(format!("{d}/only.json"));
+                    }
                     args.push(d);
                 } else {
                     let p = format!("{base}/z{}-part.json", 9 - i.min(9));
@@ -698,12 +730,23 @@ fn check_context(case: &Case, ctx: &mut Ctx) -> Option<Violation> {
             ctx.harness_error = Some("cannot create a directory".into());
             return None;
         };
-        let paths: Vec<String> = (0..files.len()).map(|i| format!("{dir}/part{i}.json")).collect();
+        let mut paths: Vec<String> = (0..files.len()).map(|i| format!("{dir}/part{i}.json")).collect();
+        let target = format!("{dir}-t");
+        if files.len() >= 2 && case.stream().len() % 2 == 0 {
+            // the last file sits in a sub-directory that is a symbolic link to a directory
+            // somewhere else
+            let _ = std::fs::create_dir_all(&target);
+            let _ = std::os::unix::fs::symlink(&target, format!("{dir}/sub"));
+            let last = paths.len() - 1;
+            paths[last] = format!("{dir}/sub/part{last}.json");
+            ctx.stats.probe("a file behind a symbolic link to a directory");
+        }
         let mut rng = Rng::new(crate::rng::mix(&[files.len() as u64, case.stream().len() as u64, 29]));
         let plans: Vec<FilePlan> = files.iter().map(|f| gen_file_plan(&mut rng, f.len())).collect();
         ctx.stats.probe("context rows from a directory argument");
         let out = ctx.exec(sim_dir_spec(case, &dir, &paths, &files, &plans));
         let _ = std::fs::remove_dir_all(&dir);
+        let _ = std::fs::remove_dir_all(&target);
         (out, paths)
     } else if use_files && case.param("simfiles") == 1 {
         let mut rng = Rng::new(crate::rng::mix(&[files.len() as u64, case.stream().len() as u64, 23]));
@@ -945,16 +988,8 @@ fn check_context(case: &Case, ctx: &mut Ctx) -> Option<Violation> {
         sorted.opts.push(vec!["--sort-by=&index=DESC".into()]);
         sorted.opts.push(vec!["--sort-by=\"k\"".into()]);
         let b = if use_files {
-            let p2 = ctx.fresh_paths(files.len());
-            let mut r = ctx.exec(sim_files_spec(&sorted, &p2, &files, &[]));
-            r.obs.stdout = {
-                let mut t = r.obs.stdout.clone();
-                for (a, b) in p2.iter().zip(paths.iter()) {
-                    t = String::from_utf8_lossy(&t).replace(a.replace('/', "\\/").as_str(), b.replace('/', "\\/").as_str()).into_bytes();
-                }
-                t
-            };
-            r
+            // (the same names again: the rows carry them)
+            ctx.exec(sim_files_spec(&sorted, &paths, &files, &[]))
         } else {
             let input = case.stream();
             ctx.exec(case_spec(&sorted, &input))
